@@ -53,12 +53,12 @@ theorem c40_same_path (lhs rhs : Obj) (sel : Sel) (ps : List Pair) (h : assign l
   exact ⟨c', q, l, ul, r, ur, hreach, e1, e2, unwrap_chain _ _ _ _ hl, unwrap_chain _ _ _ _ hr,
     by rw [hp1, e1], by rw [hp2, e2], hfl, hck, hsh⟩
 
--- OBLIGATION c40_shapes : equal shapes, full strength: every statement whose operands are not Python ints was shape-checked and copies between equal shapes - for all operands in which a value without explicit shape (the as_signed() operator of a signed member) occurs only as a member of a view (okE: true of everything Python can build from Signals, views, dicts, lists, Arrays and ints). Holds since /repo 744698a; before, the unwrapping loops lost the check (F-b7-1)
+-- OBLIGATION c40_shapes : equal shapes, full strength: every statement whose operands are not Python constants (ints, enum members) was shape-checked and copies between equal shapes - for all operands in which a value without explicit shape (the as_signed() operator of a signed member) occurs only as a member of a view (okE: true of everything Python can build from Signals, views, dicts, lists, Arrays and ints). Holds since /repo 744698a; before, the unwrapping loops lost the check (F-b7-1)
 theorem c40_shapes (lhs rhs : Obj) (sel : Sel) (ps : List Pair) (h : assign lhs rhs sel = .ok ps)
     (hl : okE false lhs) (hr : okE false rhs) :
     ∀ p ∈ ps, ∃ (c' : Call) (l r : Obj) (ul ur : Path), Reach (root lhs rhs sel) c' ∧
       unwrap c'.lc c'.lhs = .ok (l, ul) ∧ unwrap c'.R.1 c'.R.2 = .ok (r, ur) ∧ p.flow = flowOf c'.lc l c'.R.1 r ∧
-      (isInt l = false → isInt r = false →
+      (isLit l = false → isLit r = false →
         p.checked = true ∧ shapeEq (shapeOf c'.lc l) (shapeOf c'.R.1 r) = true) := by
   intro p hp
   obtain ⟨c', hreach, _, hleaf⟩ := c40_sound lhs rhs sel ps h p hp
